@@ -217,6 +217,34 @@ Proof.
 Qed.
 Print Assumptions C06_announcement_cannot_downgrade_stored_identity.
 
+(* ---------------------------------------------------------------- (3c) history *)
+
+(* The credentials may be replaced while a protocol object exists.  Every connect of the object
+   is the connect of (3) against the credentials stored AT THAT MOMENT - it depends on nothing
+   else of the history (not on what was stored when the object was created, not on earlier
+   connects); so keys after that connect => the reply proved the identity stored then. *)
+Theorem C06_connect_uses_credentials_stored_at_connect_time :
+  forall x25519 hkdf dec enc pk_load sig_ok sign k p init pre h f1 pd f3 pd4 post,
+  nth_error (run_history x25519 hkdf dec enc pk_load sig_ok sign k p init (pre ++ Connect h f1 pd f3 pd4 :: post)) (connects_in pre)
+  = Some (connect_stored x25519 hkdf dec enc pk_load sig_ok sign k p (creds_after init pre) h f1 pd f3 pd4) /\
+  (keys (connect_stored x25519 hkdf dec enc pk_load sig_ok sign k p (creds_after init pre) h f1 pd f3 pd4) = true ->
+   exists c t spub encd shared pt it sg,
+     creds_after init pre = Some c /\
+     pairing_data k p pd = inl t /\ get T_PublicKey t = Some spub /\ get T_EncryptedData t = Some encd /\
+     x25519 (v_priv h) spub = Some shared /\
+     dec (hkdf salt_pv info_pv shared) nonce_m2 encd = Some pt /\
+     read_tlv pt = TOk it /\
+     get T_Identifier it = Some (atv_id c) /\
+     get T_Signature it = Some sg /\
+     sig_ok (ltpk c) (spub ++ atv_id c ++ v_pub h) sg = true).
+Proof.
+  intros. split; [apply history_connect|].
+  unfold connect_stored. destruct (creds_after init pre) as [c|]; [|discriminate].
+  intro K. apply C06_trusted_only_if_identity_proved in K as (t & spub & encd & shared & pt & it & sg & K).
+  exists c, t, spub, encd, shared, pt, it, sg. split; [reflexivity|exact K].
+Qed.
+Print Assumptions C06_connect_uses_credentials_stored_at_connect_time.
+
 (* Exception mapping, every class: MRP and Companion (error_handler) give AuthenticationError
    except OSError/timeout -> ConnectionFailedError and BackOffError / NoCredentialsError /
    cancellation unchanged; AirPlay (verify_connection) gives AuthenticationError except
